@@ -412,6 +412,21 @@ def table(R, P, fns):
         a = _assignment_of_value(f, call_ev.node)
         return a
     new_node = var_from(alloc[0])
+    # every name the fresh node goes by: variables assigned from it (the result variable and the parameters of expanded helpers)
+    node_names = {new_node} if new_node else set()
+    for _ in range(4):
+        for b_ in f.blocks.values():
+            for el_ in b_.elems:
+                pairs_ = []
+                if el_["k"] == "decl":
+                    pairs_ = [(v_["n"], v_["init"]) for v_ in el_["vars"] if v_.get("init") is not None]
+                elif el_["k"] == "bin" and el_["op"] == "=" and (f.d(el_["a"][0]) or {}).get("k") == "var":
+                    pairs_ = [(f.d(el_["a"][0])["n"], el_["a"][1])]
+                for ln_, rhs_ in pairs_:
+                    r_ = RU.uncast(f, rhs_)
+                    if r_ is not None and r_["k"] == "var" and r_["n"] in node_names:
+                        node_names.add(ln_)
+    is_node = lambda txt: txt in node_names
     elem = argstr(f, cr[0].node, 2)
     status = var_from(cr[0])
     if not R.require(bool(new_node) and bool(elem), "linked_hash_table_put: the fresh node / the element variable not identified"):
@@ -432,15 +447,16 @@ def table(R, P, fns):
     for fld, src in want.items():
         st = [e for e in f.field_accesses(rec="aws_linked_hash_table_node", field=fld, modes=("w",))]
         a = _assignment_of(f, st[0]) if len(st) == 1 else None
-        R.check(a is not None and S(a["a"][1]) == src and S(st[0].node["a"][0]) == new_node, "PUT", "new-node.%s" % fld, where(f, st[0]) if st else f.name, "node->%s = %s" % (fld, src),
+        R.check(a is not None and S(a["a"][1]) == src and is_node(S(st[0].node["a"][0])), "PUT", "new-node.%s" % fld, where(f, st[0]) if st else f.name, "node->%s = %s" % (fld, src),
                 "the new node's %s is set from %s instead of the caller's %s: iteration and eviction would see a stale %s" % (fld, S(a["a"][1]) if a else "nothing", src, fld))
     a = _assignment_of(f, st_val[0]) if len(st_val) == 1 else None
-    R.check(a is not None and S(a["a"][1]) == new_node, "PUT", "element-points-to-new-node", where(f, st_val[0]) if st_val else f.name, "element->value = node")
-    R.check(argstr(f, pb[0].node, 0) == p_table + "->list" and argstr(f, pb[0].node, 1) == new_node + "->node", "PUT", "appended-to-list", where(f, pb[0]), "the new node is appended to the iteration list (re-insertion moves the entry to the back)")
+    R.check(a is not None and is_node(S(a["a"][1])), "PUT", "element-points-to-new-node", where(f, st_val[0]) if st_val else f.name, "element->value = node")
+    a0_, a1_ = argstr(f, pb[0].node, 0), argstr(f, pb[0].node, 1)
+    R.check((a0_ == p_table + "->list" or any(a0_ == n_ + "->table->list" for n_ in node_names)) and any(a1_ == n_ + "->node" for n_ in node_names), "PUT", "appended-to-list", where(f, pb[0]), "the new node is appended to the iteration list (re-insertion moves the entry to the back)")
     # exactly one push on every successful path; failing create releases the node
     tsx = Typestate(f, 0, lambda e, s: min(s + 1, 2) if e is pb[0] else s)
     R.check(tsx.exit_states <= {0, 1}, "PUT", "appended-at-most-once", "%s()" % f.name, "no path appends twice")
-    rel = [e for e in f.calls("aws_mem_release") if argstr(f, e.node, 1, addr=False) == new_node]
+    rel = [e for e in f.calls("aws_mem_release") if is_node(argstr(f, e.node, 1, addr=False))]
     okrel = False
     for r_ in rel:
         for c, p, b in RU.guards(f, r_, dom):
